@@ -392,7 +392,7 @@ def check_overlay(P, R):
         if getattr(fn, "body", None) is None:
             continue
         marks = [x for x in fn.walk() if x.get("k") == "BinaryOperator" and x.get("op") == "=" and
-                 strip(x["c"][0]).get("k") == "MemberExpr" and member_path(x["c"][0])[1][-1:] == ["tai"] and const_of(x["c"][1]) == 1]
+                 strip(x["c"][0]).get("k") == "MemberExpr" and member_path(x["c"][0])[1][-1:] == ["tai"] and const_of(x["c"][1]) != 0]      # anything that may set the mark
         if not marks:
             continue
         # a producer that stores the correction on some path (contradiction rule: then it must on all); a parser that only marks
@@ -444,6 +444,14 @@ def check_overlay(P, R):
                 ok, why = False, "no statement stores the correction on all of its paths"
             else:
                 g_mark = [norm_cond(c_, pol) for c_, pol in _if_guards(fn, mk)]
+                rhs_ = strip(mk["c"][1])
+                if rhs_ is not None and rhs_.get("k") == "ConditionalOperator":
+                    # res.tai = cond ? 0 : 1  -- the mark is set under the condition that selects the non-zero arm
+                    a_, b_ = const_of(rhs_["c"][1]), const_of(rhs_["c"][2])
+                    if a_ == 0 and b_ not in (0, None):
+                        g_mark.append(norm_cond(rhs_["c"][0], False))
+                    elif b_ == 0 and a_ not in (0, None):
+                        g_mark.append(norm_cond(rhs_["c"][0], True))
                 g_reg = [norm_cond(c_, pol) for c_, pol in _if_guards(fn, region)]
                 same = all(g in g_mark for g in g_reg)
                 after = region["i"] > max(s_["i"] for s_ in slot)
